@@ -649,6 +649,9 @@ def normalise_gathers(fn) -> int:
     def piece(v) -> bool:
         if _nonzero_mask(v) is not None:
             return True
+        if isinstance(v, ast.Call) and norm(v.func) in ('np.arange', 'numpy.arange') and 1 <= len(v.args) <= 2 \
+                and all(k.arg == 'dtype' and 'int' in norm(k.value) for k in v.keywords):
+            return True
         if isinstance(v, ast.Subscript):
             if isinstance(v.value, ast.Name) and v.value.id in cands and not isinstance(v.slice, ast.Slice):
                 return True
@@ -663,6 +666,22 @@ def normalise_gathers(fn) -> int:
         for k, v in defs.items():
             if k not in cands and k not in fn.params and piece(v):
                 cands[k] = v
+    # a name re-bound several times to the SAME piece (before a loop and again in the loop after its operands changed)
+    multi: Dict[str, List[ast.stmt]] = {}
+    binds: Dict[str, List[ast.AST]] = {}
+    for n in ast.walk(fn.node):
+        if isinstance(n, ast.Name) and isinstance(n.ctx, ast.Store):
+            binds.setdefault(n.id, []).append(n)
+    plain: Dict[str, List[ast.Assign]] = {}
+    for n in ast.walk(fn.node):
+        if isinstance(n, ast.Assign) and len(n.targets) == 1 and isinstance(n.targets[0], ast.Name):
+            plain.setdefault(n.targets[0].id, []).append(n)
+    for k, sts in plain.items():
+        if k in cands or k in fn.params or len(sts) < 2 or len(binds.get(k, [])) != len(sts):
+            continue
+        if len({ast.dump(x.value) for x in sts}) == 1 and piece(sts[0].value):
+            multi[k] = sts
+            cands[k] = sts[0].value
     if cands:
         parents = {}
         for p_ in ast.walk(fn.node):
@@ -686,6 +705,7 @@ def normalise_gathers(fn) -> int:
             if isinstance(n, ast.Assign) and len(n.targets) == 1 and isinstance(n.targets[0], ast.Name) and n.targets[0].id in cands \
                     and n.value is cands[n.targets[0].id]:
                 def_line[n.targets[0].id] = n.lineno
+        loops_ = [l for l in ast.walk(fn.node) if isinstance(l, (ast.For, ast.While))]
         good = set()
         for k, v in cands.items():
             if k not in def_line:
@@ -706,11 +726,27 @@ def normalise_gathers(fn) -> int:
                 if not idx_pos:
                     ok = False
                     break
+                dl = def_line[k]
+                if k in multi:
+                    before = [d.lineno for d in multi[k] if d.lineno < u.lineno]
+                    if not before:
+                        ok = False
+                        break
+                    dl = max(before)
                 for o in operands:
-                    if any(def_line[k] < ln <= u.lineno for ln in stores.get(o, []) if ln != def_line.get(o)):
+                    if any(dl < ln <= u.lineno for ln in stores.get(o, []) if ln != def_line.get(o)):
                         # the store AT the use line writes through this very index: it happens after the index was evaluated
-                        if any(def_line[k] < ln < u.lineno for ln in stores.get(o, [])):
+                        if any(dl < ln < u.lineno for ln in stores.get(o, [])):
                             ok = False
+            if ok and k in multi:
+                # a binding inside a loop must be the last thing that touches its operands in that loop body (the next
+                # iteration / the code after the loop reads the value of THIS binding)
+                for d in multi[k]:
+                    for l_ in loops_:
+                        if any(d is x for x in ast.walk(l_)):
+                            end = getattr(l_, 'end_lineno', None) or max(getattr(x, 'lineno', 0) for x in ast.walk(l_))
+                            if any(d.lineno < ln <= end for o in operands for ln in stores.get(o, [])):
+                                ok = False
             if ok:
                 good.add(k)
         # a piece defined through another piece is only substitutable when that one is
@@ -730,7 +766,8 @@ def normalise_gathers(fn) -> int:
                     return n
 
                 def visit_Assign(self, n):
-                    if len(n.targets) == 1 and isinstance(n.targets[0], ast.Name) and n.targets[0].id in good and n.value is cands[n.targets[0].id]:
+                    if len(n.targets) == 1 and isinstance(n.targets[0], ast.Name) and n.targets[0].id in good and \
+                            (n.value is cands[n.targets[0].id] or any(n is d for d in multi.get(n.targets[0].id, []))):
                         return ast.copy_location(ast.Pass(), n)
                     self.generic_visit(n)
                     return n
@@ -738,6 +775,122 @@ def normalise_gathers(fn) -> int:
     GatherCanon().visit(fn.node)
     ast.fix_missing_locations(fn.node)
     return int(ast.dump(fn.node) != src0)
+
+
+def normalise_ifexp(fn) -> int:
+    """`x = A if c else B`  ->  `if c: x = A  else: x = B`  (also for `return`, augmented and annotated assignments), in
+    place: the path rules follow `if` statements, a conditional expression at the top of a statement is the same branch."""
+    done = 0
+
+    class R(ast.NodeTransformer):
+        def _split(self, n, get, put):
+            nonlocal done
+            v = get(n)
+            if not isinstance(v, ast.IfExp):
+                return n
+            a, b = copy.deepcopy(n), copy.deepcopy(n)
+            put(a, v.body)
+            put(b, v.orelse)
+            done += 1
+            new = ast.If(test=v.test, body=[self.visit(a)], orelse=[self.visit(b)])
+            return ast.copy_location(new, n)
+
+        def visit_Assign(self, n):
+            return self._split(n, lambda x: x.value, lambda x, v: setattr(x, 'value', v))
+
+        def visit_AnnAssign(self, n):
+            if n.value is None:
+                return n
+            return self._split(n, lambda x: x.value, lambda x, v: setattr(x, 'value', v))
+
+        def visit_AugAssign(self, n):
+            return self._split(n, lambda x: x.value, lambda x, v: setattr(x, 'value', v))
+
+        def visit_Return(self, n):
+            if n.value is None:
+                return n
+            return self._split(n, lambda x: x.value, lambda x, v: setattr(x, 'value', v))
+
+        def visit_FunctionDef(self, n):
+            if n is fn.node:
+                self.generic_visit(n)
+            return n
+
+        def visit_Lambda(self, n):
+            return n
+    R().visit(fn.node)
+    if done:
+        ast.fix_missing_locations(fn.node)
+    return done
+
+
+def normalise_dispatch(fn) -> int:
+    """`D = {True: f, False: g}` ... `X = D[cond](args)`  ->  `if cond: X = f(args) else: X = g(args)`   (in place; also string
+    keys: an if / elif ladder ending in `raise KeyError`).  D must be a local bound once to a dict display with constant
+    keys and plain callables as values, and be used only in such subscript-calls; a key that is a local bound once to a
+    pure test is replaced by that test.  The callees then go through the ordinary splicing of post-reference helpers."""
+    from .astutil import single_locals
+    from .model import norm
+    defs = single_locals(fn)
+    tables = {k: v for k, v in defs.items() if isinstance(v, ast.Dict) and v.keys and all(isinstance(x, ast.Constant) for x in v.keys)
+              and all(isinstance(x, (ast.Name, ast.Attribute)) for x in v.values) and k not in fn.params}
+    if not tables:
+        return 0
+    uses = {k: [] for k in tables}
+    parents = {}
+    for p_ in ast.walk(fn.node):
+        for c in ast.iter_child_nodes(p_):
+            parents[id(c)] = p_
+    for n in ast.walk(fn.node):
+        if isinstance(n, ast.Name) and n.id in tables and isinstance(n.ctx, ast.Load):
+            uses[n.id].append(n)
+    done = 0
+    for name, d in tables.items():
+        sites = []
+        ok = bool(uses[name])
+        for u in uses[name]:
+            sub = parents.get(id(u))
+            call = parents.get(id(sub)) if sub is not None else None
+            stmt = parents.get(id(call)) if call is not None else None
+            if not (isinstance(sub, ast.Subscript) and sub.value is u and isinstance(call, ast.Call) and call.func is sub
+                    and isinstance(stmt, (ast.Assign, ast.Return, ast.Expr)) and getattr(stmt, 'value', None) is call):
+                ok = False
+                break
+            sites.append((stmt, call, sub))
+        if not ok:
+            continue
+        keys = [k.value for k in d.keys]
+        for stmt, call, sub in sites:
+            key = sub.slice
+            if isinstance(key, ast.Name) and key.id in defs and isinstance(defs[key.id], (ast.Compare, ast.BoolOp, ast.UnaryOp, ast.Attribute)):
+                key = copy.deepcopy(defs[key.id])
+
+            def mk(fexpr):
+                c2 = ast.Call(func=copy.deepcopy(fexpr), args=[copy.deepcopy(a) for a in call.args], keywords=[copy.deepcopy(k) for k in call.keywords])
+                s2 = copy.copy(stmt)
+                s2 = copy.deepcopy(stmt)
+                s2.value = c2
+                return ast.copy_location(s2, stmt)
+            if set(keys) == {True, False} and all(isinstance(k, bool) for k in keys):
+                new = ast.If(test=key, body=[mk(d.values[keys.index(True)])], orelse=[mk(d.values[keys.index(False)])])
+            elif all(isinstance(k, str) for k in keys):
+                new = None
+                tail = [ast.Raise(exc=ast.Call(func=ast.Name(id='KeyError', ctx=ast.Load()), args=[copy.deepcopy(key)], keywords=[]), cause=None)]
+                for k, v in reversed(list(zip(keys, d.values))):
+                    new = ast.If(test=ast.Compare(left=copy.deepcopy(key), ops=[ast.Eq()], comparators=[ast.Constant(value=k)]), body=[mk(v)], orelse=tail)
+                    tail = [new]
+            else:
+                continue
+            ast.copy_location(new, stmt)
+            holder = parents.get(id(stmt))
+            for fld in ('body', 'orelse', 'finalbody'):
+                b = getattr(holder, fld, None)
+                if isinstance(b, list) and any(x is stmt for x in b):
+                    b[[i for i, x in enumerate(b) if x is stmt][0]] = new
+                    done += 1
+    if done:
+        ast.fix_missing_locations(fn.node)
+    return done
 
 
 def normalise_collectors(fn) -> int:
@@ -775,59 +928,61 @@ def normalise_collectors(fn) -> int:
                 if isinstance(b, list) and b and isinstance(b[0], ast.stmt):
                     yield b
 
+    def empty_kind(v):
+        if (isinstance(v, ast.List) and not v.elts) or (isinstance(v, ast.Call) and norm(v.func) == 'list' and not v.args):
+            return 'list'
+        if (isinstance(v, ast.Dict) and not v.keys) or (isinstance(v, ast.Call) and norm(v.func) == 'dict' and not v.args and not v.keywords):
+            return 'dict'
+        return None
+
     changed_any = False
-    for _round in range(4):
+    for _round in range(6):
         progress = False
         for body in list(blocks(fn.node)):
-            # collectors initialised in this block
-            for i, st in enumerate(body):
-                if not (isinstance(st, ast.Assign) and len(st.targets) == 1 and isinstance(st.targets[0], ast.Name)):
+            for j, L in enumerate(body):
+                if not (isinstance(L, ast.For) and not L.orelse and isinstance(L.target, ast.Name) and pure_range(L.iter)):
                     continue
-                acc = st.targets[0].id
-                v = st.value
-                kind = 'list' if (isinstance(v, ast.List) and not v.elts) or (isinstance(v, ast.Call) and norm(v.func) == 'list' and not v.args) else \
-                    'dict' if (isinstance(v, ast.Dict) and not v.keys) or (isinstance(v, ast.Call) and norm(v.func) == 'dict' and not v.args and not v.keywords) else None
-                if kind is None:
-                    continue
-                # the filling loop: the next statement of this block that mentions acc
-                j = next((k for k in range(i + 1, len(body)) if any(isinstance(x, ast.Name) and x.id == acc for x in ast.walk(body[k]))), None)
-                if j is None or not isinstance(body[j], ast.For) or body[j].orelse or not isinstance(body[j].target, ast.Name):
-                    continue
-                L = body[j]
                 T = L.target.id
-                if not pure_range(L.iter):
-                    continue
                 env = {}
-                E = None
+                fills = []                                    # (collector, kind, E)
                 ok = True
-                for k, b in enumerate(L.body):
-                    last = k == len(L.body) - 1
-                    if isinstance(b, ast.Assign) and len(b.targets) == 1 and isinstance(b.targets[0], ast.Name) and not last:
-                        if any(isinstance(x, ast.Name) and x.id == acc for x in ast.walk(b)):
-                            ok = False
-                            break
+                for b in L.body:
+                    if isinstance(b, ast.Assign) and len(b.targets) == 1 and isinstance(b.targets[0], ast.Name):
                         env[b.targets[0].id] = subst(b.value, env)
-                    elif last and kind == 'list' and isinstance(b, ast.Expr) and isinstance(b.value, ast.Call) and norm(b.value.func) == acc + '.append' \
-                            and len(b.value.args) == 1:
-                        E = subst(b.value.args[0], env)
-                    elif last and kind == 'dict' and isinstance(b, ast.Assign) and len(b.targets) == 1 and isinstance(b.targets[0], ast.Subscript) \
-                            and norm(b.targets[0].value) == acc and norm(b.targets[0].slice) == T:
-                        E = subst(b.value, env)
+                    elif isinstance(b, ast.Expr) and isinstance(b.value, ast.Call) and isinstance(b.value.func, ast.Attribute) \
+                            and b.value.func.attr == 'append' and isinstance(b.value.func.value, ast.Name) and len(b.value.args) == 1:
+                        fills.append((b.value.func.value.id, 'list', subst(b.value.args[0], env)))
+                    elif isinstance(b, ast.Assign) and len(b.targets) == 1 and isinstance(b.targets[0], ast.Subscript) \
+                            and isinstance(b.targets[0].value, ast.Name) and norm(b.targets[0].slice) == T:
+                        fills.append((b.targets[0].value.id, 'dict', subst(b.value, env)))
                     else:
                         ok = False
                         break
-                if not ok or E is None or any(isinstance(x, ast.Name) and x.id == acc for x in ast.walk(E)):
+                accs = [f[0] for f in fills]
+                if not ok or not fills or len(set(accs)) != len(accs):
                     continue
-                # locals of the filling loop must not be read after it
+                if any(isinstance(x, ast.Name) and x.id in accs for _, _, E in fills for x in ast.walk(E)) or \
+                        any(isinstance(x, ast.Name) and x.id in accs for v in env.values() for x in ast.walk(v)):
+                    continue
+                # every collector is initialised empty earlier in this block and not mentioned in between
+                inits = {}
+                for acc, kind, _ in fills:
+                    cand = [i for i in range(j) if isinstance(body[i], ast.Assign) and len(body[i].targets) == 1
+                            and isinstance(body[i].targets[0], ast.Name) and body[i].targets[0].id == acc]
+                    if not cand or empty_kind(body[cand[-1]].value) != kind:
+                        break
+                    i0 = cand[-1]
+                    if any(isinstance(x, ast.Name) and x.id == acc for k in range(i0 + 1, j) for x in ast.walk(body[k])):
+                        break
+                    inits[acc] = i0
+                if len(inits) != len(fills):
+                    continue
                 rest = body[j + 1:]
-                later_reads = {x.id for r in rest for x in ast.walk(r) if isinstance(x, ast.Name) and isinstance(x.ctx, ast.Load)}
-                # (reads elsewhere in the function after the loop, outside this block, are rare; be conservative and look at the whole function)
                 after = {x.id for x in ast.walk(fn.node) if isinstance(x, ast.Name) and isinstance(x.ctx, ast.Load) and x.lineno > L.lineno
                          and not any(x is y for y in ast.walk(L))}
-                if (set(env) | {T}) & after:
-                    # a later loop may legitimately re-bind the same names before reading them: accept when every later read is preceded
-                    # by a store of that name in the same later loop
-                    def rebound_before_read(name):
+                leak = (set(env) | {T}) & after
+                if leak:
+                    def rebound_later(name):
                         for r in rest:
                             for lp in ast.walk(r):
                                 if isinstance(lp, ast.For) and any(isinstance(t, ast.Name) and t.id == name for t in ast.walk(lp.target)):
@@ -835,75 +990,75 @@ def normalise_collectors(fn) -> int:
                                 if isinstance(lp, ast.Assign) and any(isinstance(t, ast.Name) and t.id == name for t in lp.targets):
                                     return True
                         return False
-                    if not all(rebound_before_read(nm) for nm in (set(env) | {T}) & after):
+                    if not all(rebound_later(nm) for nm in leak):
                         continue
-                # every remaining use of acc must be a recognised read
-                uses = [x for r in rest for x in ast.walk(r) if isinstance(x, ast.Name) and x.id == acc]
-                outside = [x for x in ast.walk(fn.node) if isinstance(x, ast.Name) and x.id == acc and not any(x is y for r in body for y in ast.walk(r))]
-                if outside or not uses:
-                    continue
                 R_txt = norm(L.iter)
-                plan = []
                 parents = {}
                 for r in rest:
                     for p_ in ast.walk(r):
                         for c in ast.iter_child_nodes(p_):
                             parents[id(c)] = p_
+                plans = []
                 feasible = True
-                for u in uses:
-                    par = parents.get(id(u))
-                    gp = parents.get(id(par)) if par is not None else None
-                    if isinstance(par, ast.For) and par.iter is u and kind == 'list' and isinstance(par.target, ast.Name):
-                        plan.append(('iter', par, None))
-                    elif isinstance(par, ast.Call) and norm(par.func) == 'enumerate' and len(par.args) == 1 and isinstance(gp, ast.For) and gp.iter is par \
-                            and kind == 'list' and isinstance(gp.target, ast.Tuple) and len(gp.target.elts) == 2 \
-                            and all(isinstance(t, ast.Name) for t in gp.target.elts) and len(L.iter.args) <= 2 \
-                            and (len(L.iter.args) == 1 or norm(L.iter.args[0]) == '0'):
-                        plan.append(('enum', gp, None))
-                    elif isinstance(par, ast.Subscript) and par.value is u and isinstance(par.ctx, ast.Load) and isinstance(par.slice, ast.Name):
-                        # inside a loop over the same range whose target is the subscript
-                        encl = par
-                        found = None
-                        while encl is not None:
-                            encl = parents.get(id(encl))
-                            if isinstance(encl, ast.For) and isinstance(encl.target, ast.Name) and encl.target.id == par.slice.id and norm(encl.iter) == R_txt:
-                                found = encl
+                for acc, kind, E in fills:
+                    uses = [x for r in rest for x in ast.walk(r) if isinstance(x, ast.Name) and x.id == acc]
+                    outside = [x for x in ast.walk(fn.node) if isinstance(x, ast.Name) and x.id == acc
+                               and not any(x is y for r in body for y in ast.walk(r))]
+                    if outside or not uses:
+                        feasible = False
+                        break
+                    for u in uses:
+                        par = parents.get(id(u))
+                        gp = parents.get(id(par)) if par is not None else None
+                        if isinstance(par, ast.For) and par.iter is u and kind == 'list' and isinstance(par.target, ast.Name):
+                            plans.append(('iter', par, E, None))
+                        elif isinstance(par, ast.Call) and norm(par.func) == 'enumerate' and len(par.args) == 1 and isinstance(gp, ast.For) and gp.iter is par \
+                                and kind == 'list' and isinstance(gp.target, ast.Tuple) and len(gp.target.elts) == 2 \
+                                and all(isinstance(t, ast.Name) for t in gp.target.elts) \
+                                and (len(L.iter.args) == 1 or (len(L.iter.args) == 2 and norm(L.iter.args[0]) == '0')):
+                            plans.append(('enum', gp, E, None))
+                        elif isinstance(par, ast.Subscript) and par.value is u and isinstance(par.ctx, ast.Load) and isinstance(par.slice, ast.Name):
+                            encl = par
+                            found = None
+                            while encl is not None:
+                                encl = parents.get(id(encl))
+                                if isinstance(encl, ast.For) and isinstance(encl.target, ast.Name) and encl.target.id == par.slice.id \
+                                        and norm(encl.iter) == R_txt:
+                                    found = encl
+                                    break
+                            if found is None:
+                                feasible = False
                                 break
-                        if found is None:
+                            plans.append(('sub', par, E, parents))
+                        else:
                             feasible = False
                             break
-                        plan.append(('sub', par, parents))
-                    else:
-                        feasible = False
+                    if not feasible:
                         break
                 if not feasible:
                     continue
-                # apply
-                for what, node, extra in plan:
+                for what, node, E, extra in plans:
                     if what in ('iter', 'enum'):
                         names_in_body = {x.id for b in node.body for x in ast.walk(b) if isinstance(x, ast.Name)}
                         if T in names_in_body or any(k in names_in_body for k in env):
                             feasible = False
-                if not feasible:
+                # two 'iter' plans on the same loop (zip) are not handled
+                loops_planned = [id(n) for w, n, _, _ in plans if w in ('iter', 'enum')]
+                if not feasible or len(loops_planned) != len(set(loops_planned)):
                     continue
-                for what, node, extra in plan:
+                for what, node, E, extra in plans:
                     if what == 'iter':
                         x = node.target.id
-                        pre = [ast.Assign(targets=[ast.Name(id=x, ctx=ast.Store())], value=copy.deepcopy(E))]
+                        pre = [ast.copy_location(ast.Assign(targets=[ast.Name(id=x, ctx=ast.Store())], value=copy.deepcopy(E)), node)]
                         node.target = ast.Name(id=T, ctx=ast.Store())
                         node.iter = copy.deepcopy(L.iter)
-                        for p_ in pre:
-                            ast.copy_location(p_, node)
-                            p_.lineno = node.lineno
                         node.body = pre + node.body
                     elif what == 'enum':
                         ix, x = node.target.elts[0].id, node.target.elts[1].id
-                        pre = [ast.Assign(targets=[ast.Name(id=ix, ctx=ast.Store())], value=ast.Name(id=T, ctx=ast.Load())),
-                               ast.Assign(targets=[ast.Name(id=x, ctx=ast.Store())], value=copy.deepcopy(E))]
+                        pre = [ast.copy_location(ast.Assign(targets=[ast.Name(id=ix, ctx=ast.Store())], value=ast.Name(id=T, ctx=ast.Load())), node),
+                               ast.copy_location(ast.Assign(targets=[ast.Name(id=x, ctx=ast.Store())], value=copy.deepcopy(E)), node)]
                         node.target = ast.Name(id=T, ctx=ast.Store())
                         node.iter = copy.deepcopy(L.iter)
-                        for p_ in pre:
-                            ast.copy_location(p_, node)
                         node.body = pre + node.body
                     else:
                         par = node
@@ -917,7 +1072,8 @@ def normalise_collectors(fn) -> int:
                                     if item is par:
                                         val[q] = ast.copy_location(repl, par)
                 body[j] = ast.copy_location(ast.Pass(), L)
-                body[i] = ast.copy_location(ast.Pass(), st)
+                for acc, i0 in inits.items():
+                    body[i0] = ast.copy_location(ast.Pass(), body[i0])
                 progress = True
                 changed_any = True
                 break
@@ -945,6 +1101,12 @@ def flatten_model(model) -> Optional[Flattener]:
     fl.gathers = 0
     for f in funcs:
         fl.gathers += normalise_gathers(f)
+    fl.dispatch = 0
+    for f in funcs:
+        fl.dispatch += normalise_dispatch(f)
+    fl.ifexps = 0
+    for f in funcs:
+        fl.ifexps += normalise_ifexp(f)
     fl.collectors = 0
     if not new:
         for f in funcs:
